@@ -141,7 +141,26 @@ def build_ldap_response(a, b, body):
     return u8(0x30) + u8(a) + LDAP_RESPONSE_BODY + body, 2 + a
 
 
+LDAP_LONG_BODY = bytes.fromhex('020101787d0a010004000476') + bytes(range(118))    # 130 content octets
+
+
+def build_ldap_response_long(a, b, body):
+    # BER long form: 0x30 0x81 LL contents (LL >= 128 needs the long form)
+    if not (0 <= a < 256 and 0 <= b < 256):
+        return None, None
+    return u8(0x30) + u8(0x81) + u8(a) + LDAP_LONG_BODY + body, 3 + a
+
+
+def build_hs_seeded(a, b, body):
+    # any handshake message: HandshakeType(1) uint24 length body; body = the seed's body followed by symbolic bytes
+    seed = bytes.fromhex(P['SEED'])
+    if not 0 <= a < 2 ** 24:
+        return None, None
+    return seed[:1] + u24(a) + seed[4:] + body, 4 + a
+
+
 FRAMES = {
+    'ldap_response_long': ('cryptoparser.tls.ldap.LDAPExtendedResponseStartTLS', build_ldap_response_long, 3),
     'tls_record': ('cryptoparser.tls.record.TlsRecord', build_tls_record, 5),
     'hs_server_key_exchange': ('cryptoparser.tls.subprotocol.TlsHandshakeServerKeyExchange', build_handshake, 4),
     'hs_server_hello_done': ('cryptoparser.tls.subprotocol.TlsHandshakeServerHelloDone', build_handshake, 4),
@@ -168,6 +187,8 @@ FRAME_PARAMS = {
 
 
 def _frame():
+    if P['FRAME'] == 'hs_seeded':
+        return _cls(P['CLASS']), build_hs_seeded, 4
     path, builder, header = FRAMES[P['FRAME']]
     return _cls(path), builder, header
 
@@ -219,6 +240,28 @@ def selfdelim(a: int, b: int, body: bytes, suffix: bytes) -> bool:
     except TooMuchData:
         exact = False
     return exact == (size == len(buf))
+
+
+FILLER = bytes(40000)
+
+
+def filler(a: int, b: int, body: bytes) -> bool:
+    """post: _"""
+    # C03, far suffix: a complete frame parses the same whether or not 40 000 further bytes follow it
+    cls, builder, _ = _frame()
+    if len(body) > P['B']:
+        return True
+    buf, declared = builder(a, b, body)
+    if buf is None or declared is None or declared > len(buf):
+        return True
+    obj, size, error = _parse_outcome(cls, buf)
+    obj2, size2, error2 = _parse_outcome(cls, buf + FILLER)
+    reach()
+    if (error is None) != (error2 is None):
+        return False
+    if error is not None:
+        return True
+    return size == size2 and deep_eq(obj, obj2)
 
 
 def prefix_needs(a: int, b: int, body: bytes) -> bool:
@@ -350,7 +393,11 @@ def reader_loop(pay1: bytes, pay2: bytes, chunk1: int, chunk2: int, chunk3: int)
 def banner_selfdelim(tail: bytes, suffix: bytes) -> bool:
     """post: _"""
     # SSH identification string: terminated by the first LF; n counts up to and including it
-    if len(tail) > P['B'] or len(suffix) > 2:
+    if len(tail) > P['B'] or len(suffix) > P.get('S', 2):
+        return True
+    if len(tail) >= 1 and not P.get('LO', 0) <= tail[0] < P.get('HI', 256):
+        return True
+    if len(tail) == 0 and P.get('LO', 0) != 0:
         return True
     cls = _cls('cryptoparser.ssh.subprotocol.SshProtocolMessage')
     buf = b'SSH-2.0-a' + tail + b'\r\n' + suffix
@@ -372,7 +419,7 @@ def banner_selfdelim(tail: bytes, suffix: bytes) -> bool:
 def shards_c03(tier, seed):  # pylint: disable=unused-argument
     out = []
     body = 6 if tier == 'thorough' else 4
-    small = {'ldap_response': 2, 'ssl2_record': 3}
+    small = {'ldap_response': 0, 'ldap_response_long': 0, 'ssl2_record': 3}
     for name in FRAMES:
         par = dict(FRAME_PARAMS.get(name, {}), FRAME=name, B=body if tier == 'thorough' else small.get(name, body))
         variants = [par]
@@ -383,9 +430,33 @@ def shards_c03(tier, seed):  # pylint: disable=unused-argument
             out.append(Shard(MOD, 'selfdelim', label, vpar, 600 if tier == 'thorough' else 120,
                              bounds='header integers full width (declared length: every value of its field), body '
                                     '<= %d symbolic bytes, suffix <= 2 symbolic bytes' % vpar['B']))
-    blen = 4 if tier == 'thorough' else 3
-    out.append(Shard(MOD, 'banner_selfdelim', 'selfdelim/ssh_banner', {'B': blen}, 600 if tier == 'thorough' else 120,
-                     bounds='"SSH-2.0-a" + <= %d symbolic bytes + CR LF + <= 2 symbolic bytes' % blen))
+    for name in FRAMES:
+        par = dict(FRAME_PARAMS.get(name, {}), FRAME=name, B=1)
+        variants = [par] if name != 'ssl2_record' else [dict(par, SSL2_MTYPE=0), dict(par, SSL2_MTYPE=1)]
+        for idx, vpar in enumerate(variants):
+            out.append(Shard(MOD, 'filler', 'filler/%s%s' % (name, '' if len(variants) == 1 else '-%d' % idx), vpar,
+                             240, bounds='header integers full width, body <= 1 symbolic byte; the same frame '
+                                         'followed by 40000 zero bytes'))
+    from symcheck.harness import registry  # pylint: disable=import-outside-toplevel
+    for cls, seeds in registry.seeded_classes():
+        name = registry.class_name(cls)
+        if not name.startswith('cryptoparser.tls.subprotocol.TlsHandshake') or not hasattr(cls, 'get_handshake_type'):
+            continue
+        usable = [item for item in seeds if 4 <= len(item) <= 200 and int.from_bytes(item[1:4], 'big') == len(item) - 4]
+        if not usable:
+            continue
+        data = min(usable, key=len)
+        out.append(Shard(MOD, 'selfdelim', 'selfdelim/hs/%s' % cls.__name__,
+                         {'FRAME': 'hs_seeded', 'CLASS': name, 'SEED': data.hex(), 'B': 2},
+                         600 if tier == 'thorough' else 150,
+                         bounds='handshake header length: every 24-bit value; body = accepted %d-byte vector + <= 2 '
+                                'symbolic bytes; suffix <= 2 symbolic bytes' % len(data)))
+    blen, slen = (2, 2) if tier == 'thorough' else (1, 1)
+    for low in range(0, 128, 16):     # bytes >= 0x80 are never accepted in a banner (ASCII): nothing to compare
+        out.append(Shard(MOD, 'banner_selfdelim', 'selfdelim/ssh_banner/%02x' % low,
+                         {'B': blen, 'S': slen, 'LO': low, 'HI': low + 16}, 900 if tier == 'thorough' else 150,
+                         bounds='"SSH-2.0-a" + <= %d symbolic bytes (first one in %d..%d) + CR LF + <= %d symbolic '
+                                'bytes' % (blen, low, low + 15, slen)))
     return out
 
 
